@@ -13,6 +13,11 @@ coq/model/RunC14.v):
                      6 read_with_ancillary 7 read_managed_with_ancillary 8 read_multi_with_ancillary(64; take b)
  dgram  : 2 drv tr plen psize seed nsend window mkind mcount n (skind size sender rkind cap len flags)*
  accept : 3 drv tr k mode j
+ bulk   : 4 drv tr split sbuf rbuf seed who delay pace rcap nops (kind total chunk)*
+          back-pressure: X writes several MiB (far above the socket buffers), Y only reads and never
+          sends; who = 0: the reader starts `delay` ms late, 1: the writer does; the reader sleeps 1 ms
+          every `pace` reads; kinds 1 write loop (chunk bytes per call) 2 write_vectored loop 3 write_all
+          4 write_vectored_all 5 write_zerocopy loop 6 write_zerocopy_vectored loop
 """
 import random
 
@@ -184,17 +189,53 @@ def gen_accept(rng):
     return [3, drv, tr, k, mode, j]
 
 
+def gen_bulk(rng):
+    drv = rng.choice([1, 1, 1, 0, 0])
+    tr = rng.choice([0, 1])
+    split = rng.choice([0, 1, 2])
+    if rng.random() < 0.5:
+        sbuf = rbuf = 0
+    elif tr == 0:
+        sbuf = rbuf = rng.choice([65536, 262144])
+    else:
+        sbuf = rbuf = rng.choice([8192, 65536, 262144])
+    seed = rng.randrange(0, 50000)
+    who = 0 if rng.random() < 0.8 else 1
+    delay = rng.choice([20, 50, 100])
+    pace = rng.choice([0, 0, 4, 16])
+    rcap = rng.choice([16384, 65536, 65536, 262144])
+    case = [4, drv, tr, split, sbuf, rbuf, seed, who, delay, pace, rcap]
+    ops = []
+    budget = 6 << 20
+    for _ in range(rng.randrange(1, 5)):
+        total = rng.choice([300000, 1 << 20, 2 << 20, 3 << 20])
+        if total > budget:
+            break
+        budget -= total
+        kind = rng.randrange(1, 7)
+        chunk = rng.choice([total, 1 << 20, 262144, 65536])
+        ops.append((kind, total, min(chunk, total)))
+    if not ops:
+        ops.append((rng.randrange(1, 7), 1 << 20, 262144))
+    case.append(len(ops))
+    for op in ops:
+        case += list(op)
+    return case
+
+
 def generate(seed, n):
     rng = random.Random(seed * 7919 + 14)
     out = []
     for _ in range(n):
         r = rng.random()
-        if r < 0.62:
+        if r < 0.58:
             out.append(gen_stream(rng))
-        elif r < 0.88:
+        elif r < 0.82:
             out.append(gen_dgram(rng))
-        else:
+        elif r < 0.93:
             out.append(gen_accept(rng))
+        else:
+            out.append(gen_bulk(rng))
     return out
 
 
@@ -209,6 +250,9 @@ def describe(case):
                                       "/multishot%d" % case[8] if case[8] else "")
         if m == 3:
             return "accept/%s/%s/mode%d" % (["tcp", "unix"][case[2]], d, case[4])
+        if m == 4:
+            return "bulk/%s/%s/split%d/%s-late" % (["tcp", "unix"][case[2]], d, case[3],
+                                                   "reader" if case[7] == 0 else "writer")
     except (IndexError, TypeError):
         pass
     return "malformed"
@@ -222,4 +266,7 @@ def nontrivial(case, out):
         return any(e[0] == 3 and e[3] > 0 for e in evs)
     if case[0] == 2:
         return any(e[0] == 5 for e in evs)
+    if case[0] == 4:
+        # the scenario was exercised: some send call spanned reads of the peer
+        return any(e[0] == 9 and e[3] > 0 and e[6] > 0 for e in evs)
     return any(e[0] == 12 for e in evs)
